@@ -407,6 +407,15 @@ def normaliser_tables(ctx: Ctx) -> None:
         it = r.__dict__.get("iter_value")
         ctx.check(isinstance(it, SObj) and it is r.__dict__.get("arg"), "C14.flatten", "flatten iterates its argument forward", wf,
                   f"iterates {short(it)}", "flatten does not iterate its argument directly (order may change)")
+    reach = childnorm.flatten_reach(prog)
+    if reach is None:
+        ctx.count("flatten worker run on its own (C14.reach)", 0)
+    else:
+        ctx.count("flatten worker run on its own (C14.reach)", 1)
+        for kind, conds in reach:
+            ctx.check(False, "C14.reach", "every normal path of the flatten worker iterates its argument", wf, f"{kind} before the loop under {conds}",
+                      f"_flatten_recurse ends ({kind}) without iterating its argument when {conds}: the items of that container are dropped "
+                      f"from the flattened children", witness="sep = ['-']; TagList('a', sep, 'b', sep)")
     # ---- .5 acceptance subset of is_tag_child; stored elements satisfy is_tag_node -----------------------------------------
     accepted = kept | converted | dropped | recursed
     for k in sorted(accepted):
